@@ -41,3 +41,5 @@ Definition alias_bits (bits : Z) : option (Z * Z) :=
   if existsb (fun a => Z.eqb (fst (fst a)) bits) aliases
   then Some (BITS 64 (Z.to_nat (bits / alias_divisor_u)), BITS 64 (Z.to_nat (bits / alias_divisor_i)))
   else None.
+Definition v_alias_bits (bits : Z) : val :=
+  match alias_bits bits with Some (x, y) => VSome (VPair (VZ x) (VZ y)) | None => VNone end.
